@@ -264,6 +264,12 @@ def child_main(cfg):
 # =====================================================================================================================
 # worker
 # =====================================================================================================================
+def _pdeath():
+    from vf import build
+
+    build.die_with_parent()
+
+
 def run_child(cfg, hashseed, cache_prefix, nocache=False, timeout=240):
     env = dict(os.environ)
     env["PYTHONHASHSEED"] = str(hashseed)
@@ -273,7 +279,7 @@ def run_child(cfg, hashseed, cache_prefix, nocache=False, timeout=240):
         env["BASILISP_DO_NOT_CACHE_NAMESPACES"] = "true"
     else:
         env.pop("BASILISP_DO_NOT_CACHE_NAMESPACES", None)
-    p = subprocess.run([sys.executable, "-m", "vf.props.c14", json.dumps(cfg)], env=env, capture_output=True, timeout=timeout, cwd=os.path.dirname(os.path.dirname(os.path.dirname(os.path.abspath(__file__)))))
+    p = subprocess.run([sys.executable, "-m", "vf.props.c14", json.dumps(cfg)], env=env, capture_output=True, timeout=timeout, preexec_fn=_pdeath, cwd=os.path.dirname(os.path.dirname(os.path.dirname(os.path.abspath(__file__)))))
     out = p.stdout.decode("utf-8", "replace")
     i = out.rfind("@@C14@@")
     if i < 0:
